@@ -203,6 +203,10 @@ def compile_level(ctx):
         for n, u in items:
             glyphs.append({"name": n, "width": 500, "unicodes": [u] if u else [],
                            "contours": [[(0, 0, "line"), (100 + len(n), 0, "line"), (50, 100, "line")]]})
+        if i % 2 == 0 and not any(g["name"] in ("Ohm", "Ohm.alt") for g in glyphs):
+            # a glyph with SEVERAL code points whose first (primary) one is not the numerically smallest, and a suffixed variant
+            glyphs.append({"name": "Ohm", "width": 500, "unicodes": [0x2126, 0x3A9], "contours": [[(0, 0, "line"), (120, 0, "line"), (60, 90, "line")]]})
+            glyphs.append({"name": "Ohm.alt", "width": 500, "unicodes": [], "contours": [[(0, 0, "line"), (121, 0, "line"), (60, 90, "line")]]})
         if not any(g["name"] == "a" for g in glyphs):
             glyphs.append({"name": "a", "width": 500, "unicodes": [0x61], "contours": [[(0, 0, "line"), (9, 0, "line"), (5, 9, "line")]]})
         desc = {"glyphs": glyphs, "lib": {}, "kerning": {}, "features": ""}
@@ -285,3 +289,5 @@ def compile_level(ctx):
                 want = ("u%04X" if u > 0xFFFF else "uni%04X") % u
                 if not final[idx].startswith(want):
                     ctx.spec_failure(case, "glyph %r (U+%04X) is named %r, expected %s" % (n, u, final[idx], want))
+            elif n == "Ohm.alt" and not psn and not final[idx].startswith("uni2126.alt"):
+                ctx.spec_failure(case, "glyph 'Ohm.alt' is named %r, expected uni2126.alt (suffix kept on the base glyph's primary code point)" % final[idx])
